@@ -1,6 +1,6 @@
 import Nv.Proofs.C03ScanTop
 import Nv.Proofs.C03Get
-import Nv.Proofs.C03Cow3
+import Nv.Proofs.C03Cow8
 /-!
 C03 — property theorems for the B-tree (`ds/tree/btree`) and its locked wrapper (`ds/tree`).
 Model: `Nv.Model.C03`; specification: `Nv.Spec.C03` (a strictly sorted item list).
@@ -295,6 +295,60 @@ theorem bt_clone_separates (H : Cow.Heap) (t : Cow.HTree) (c1 c2 : Nat) (r : Nat
     (hlive : ∀ id, Cow.Reach H r id → id < H.size ∧ id ∉ H.free) :
     Cow.Sep H (Cow.cloneB t c1 c2).1.cow r ∧ Cow.Sep H (Cow.cloneB t c1 c2).2.cow r :=
   Cow.clone_sep H t c1 c2 r hfresh hlive
+
+/-
+`bt_clone_isolated` in full strength (free list of capacity 32 as in `btree.New`, any interleaving) is NOT proved.
+What is proved in full generality over interleavings is the same statement for stores whose free list has capacity 0
+(`NewWithFreeList(d, NewFreeList(0))`): `bt_clone_isolated_nofreelist` below. The one lemma missing for free-list
+REUSE: "a cell that `freeNode` parks (the right sibling after a merge, the old root after a collapse, the cells of
+`Clear(true)`) is reachable from no handle's root afterwards". It needs the unique-reference invariant of owned cells
+(a cell tagged with a live handle's tag occurs at most once in the child lists of the cells reachable from that
+handle's root, and in no other reachable cell), which the shape-agnostic frame/closure arguments used here cannot give:
+between the writes of one `growChildAndRemove` a grandchild is referenced twice, so the invariant only holds at
+operation boundaries and has to be proved from the functional behaviour of insert/remove on the store. The same
+invariant (distinct owned siblings) is what the refinement layer B → layer A needs; that refinement is therefore not
+proved either — it is validated on every explored script by the T-observables `cons`, `owned`, `free`.
+-/
+
+/-- **Clone isolation for arbitrary interleavings** (free list of capacity 0): in ANY world reached from the empty tree by
+    ANY program of `Clone`s and writes (insert, delete, delete-min/max, clear) through ANY of the handles — alternating
+    writers included — a further write through handle `i` leaves handle `j ≠ i` itself, and every reading of its tree
+    (the layer-A node at every depth, hence the in-order list and every scan result computed from it) unchanged. -/
+theorem bt_clone_isolated_nofreelist (degree : Nat) (pre : List Cow.POp) (i : Nat) (op : Cow.WOp)
+    (j : Nat) (u : Cow.HTree) (r : Nat) (hji : j ≠ i)
+    (hj : (pre.foldl Cow.World.step (Cow.World.init degree 0)).hs[j]? = some u) (hr : u.root = some r) :
+    ((pre.foldl Cow.World.step (Cow.World.init degree 0)).step (.write i op)).hs[j]? = some u ∧
+    ∀ fuel,
+      Cow.absNode ((pre.foldl Cow.World.step (Cow.World.init degree 0)).step (.write i op)).H fuel r =
+        Cow.absNode (pre.foldl Cow.World.step (Cow.World.init degree 0)).H fuel r ∧
+      Cow.heightB ((pre.foldl Cow.World.step (Cow.World.init degree 0)).step (.write i op)).H fuel r =
+        Cow.heightB (pre.foldl Cow.World.step (Cow.World.init degree 0)).H fuel r := by
+  have hwi := Cow.World.WI.run degree pre
+  generalize pre.foldl Cow.World.step (Cow.World.init degree 0) = w at hwi hj ⊢
+  cases hi : w.hs[i]? with
+  | none =>
+    have : w.step (.write i op) = w := by simp only [Cow.World.step, hi]
+    rw [this]; exact ⟨hj, fun _ => ⟨rfl, rfl⟩⟩
+  | some t =>
+    refine ⟨?_, (hwi.write i op t hi).2 j u r hji hj hr⟩
+    simp only [Cow.World.step, hi]
+    rw [List.getElem?_set_ne (fun e => hji e.symm)]; exact hj
+
+/-- a program with alternating writers (free list of capacity 0): fill handle 0, clone it, then write through the
+    clone, the original, the clone again (with a clear in between): each handle reads its own sorted set -/
+def altDemo : Cow.World :=
+  ([1, 2, 3, 4, 5, 6, 7].map (fun k : Int => Cow.POp.write 0 (.insert ⟨k, k.toNat⟩)) ++
+    ([.clone 0, .write 1 (.insert ⟨4, 400⟩), .write 0 (.remove (.item 2)), .write 1 (.remove .min),
+     .write 0 (.insert ⟨9, 9⟩), .clone 1, .write 2 (.clear true), .write 1 (.insert ⟨8, 8⟩)] : List Cow.POp)).foldl
+    Cow.World.step (Cow.World.init 2 0)
+
+example : altDemo.hs.map (fun t => (t.inorder altDemo.H).map (·.val)) =
+    [[1, 3, 4, 5, 6, 7, 9], [2, 3, 400, 5, 6, 7, 8], []] := by decide +kernel
+
+/-- the invariant behind it, for every reachable world (free list of capacity 0): every cell reachable from a handle's
+    root exists, is not parked (`hlive` of `bt_clone_separates`), and carries no OTHER handle's current tag -/
+theorem bt_clone_world_invariant_nofreelist (degree : Nat) (ops : List Cow.POp) :
+    (ops.foldl Cow.World.step (Cow.World.init degree 0)).WI := Cow.World.WI.run degree ops
 
 /-- in every store reached by ANY program of clones and writes (insert, delete, delete-min/max, clear) from the
     empty tree, the two tags the next `Clone` takes are carried by no cell — the `hfresh` hypothesis of
